@@ -3,7 +3,7 @@ SRC = ['repo:src/Document/Json.cpp', 'repo:src/String.cpp', 'repo:src/Memory.cpp
 UNITS = [dict(
     name='json', harness='harness/c15_json.cpp', sources=SRC, native_sources=SRC + ['repo:src/Error.cpp'],
     defines={'quick': {'VF_LEN': 4, 'VF_SLEN': 6}, 'thorough': {'VF_LEN': 5, 'VF_SLEN': 8}},
-    entries=['parse_safety', 'roundtrip', 'strip'],
+    entries=['parse_safety', 'roundtrip', 'strip', 'unicode_escape'],
     opts={'all': {'unwind': 64}},
     split={'quick': 12, 'thorough': 16},
     budget={'quick': 280, 'thorough': 2600},
@@ -13,6 +13,6 @@ BOUNDS = {
     'quick': 'every NUL-terminated text of <= 4 arbitrary non-NUL bytes in an exactly sized object through Json::Parser::parse; value trees of <= 3 nodes (null, bool, symbolic int32/int64, strings of <= 2 symbolic non-NUL bytes, a fixed string with quote and backslash, lists, string-keyed maps, one nesting level) through toString then parse; stripComments on every text of <= 6 non-NUL bytes vs. a reference state machine',
     'thorough': 'texts <= 5 bytes, stripComments inputs <= 8 bytes',
 }
-OUTSIDE = 'longer texts / deeper trees (nesting depth 1000 is not reached), doubles (libc formatting), \\\\u escapes with symbolic hex digits are concretised by the scanf model'
+OUTSIDE = 'longer texts / deeper trees (nesting depth 1000 is not reached), doubles (libc formatting), \\u escapes are covered over the digit alphabet {0,8,D,d,f,g} (entry unicode_escape)'
 ASSUMPTIONS = ['clang++-14 -O1 IR of src/Document/Json.cpp, src/String.cpp, src/Variant.cpp, src/Memory.cpp + the container/String/Variant headers',
                'vsnprintf / strto* / strpbrk are engine models', 'text bytes are non-NUL (the terminator is the only NUL)']
